@@ -224,6 +224,64 @@ def yescrypt_param_sweep(rng, full=False):
     return out
 
 
+def _dec64var(s, i, minv):
+    """decode64_uint32 of alg-yescrypt-common.c: (value, next index) or None"""
+    if i >= len(s) or s[i] not in B64:
+        return None
+    start, end, chars, bits = 0, 47, 1, 0
+    c = B64.index(s[i]); i += 1
+    v = minv
+    while c > end:
+        v += (end + 1 - start) << bits
+        start = end + 1
+        end = start + (62 - end) // 2
+        chars += 1
+        bits += 6
+    v += (c - start) << bits
+    while chars > 1:
+        chars -= 1
+        if i >= len(s) or s[i] not in B64 or bits < 6:
+            return None
+        bits -= 6
+        v += B64.index(s[i]) << bits
+        i += 1
+    return v, i
+
+
+def yescrypt_work(s):
+    """a rough work estimate (block mixes) of a $y$/$gy$ setting as the library would decode it, or 0 if the
+    parameter string does not decode (then the call is refused at once).  Used only to keep generated settings within
+    the compute budget (DESIGN.md section 4): a valid setting with t = 10^6 is a request for hours of work."""
+    body = s[3:] if s.startswith("$y$") else s[4:] if s.startswith("$gy$") else None
+    if body is None:
+        return 0
+    i = 0
+    vals = []
+    for minv in (0, 1, 1):                       # flavor, N_log2, r
+        d = _dec64var(body, i, minv)
+        if d is None:
+            return 0
+        vals.append(d[0]); i = d[1]
+    fl, nl, r = vals
+    p, tt = 1, 0
+    if i < len(body) and body[i] != "$":
+        d = _dec64var(body, i, 1)
+        if d is None:
+            return 0
+        have, i = d
+        for bit, minv in ((1, 2), (2, 1), (4, 1), (8, 1)):
+            if have & bit:
+                d = _dec64var(body, i, minv)
+                if d is None:
+                    return 0
+                if bit == 1: p = d[0]
+                if bit == 2: tt = d[0]
+                i = d[1]
+    if nl > 31:
+        return 0
+    return (1 << nl) * max(r, 1) * max(p, 1) * (tt + 1)
+
+
 def yescrypt_malformed_params(rng, full=False):
     """every character in the optional-parameter positions after '$y$j65' (have, p, t, g, NROM fields), cheap N"""
     out = []
@@ -236,7 +294,8 @@ def yescrypt_malformed_params(rng, full=False):
                 out.append(tag + "j65" + x + y)
             for _ in range(6 if full else 2):
                 out.append(tag + "j65" + x + salt(rng, rng.choice((2, 3, 4))) + "$abcd")
-    return out
+    # (random optional fields can spell t or p in the millions: such a setting is valid and simply takes hours)
+    return [s for s in out if yescrypt_work(s) <= 1 << 24]
 
 
 def bcrypt_sign_family(rng):
